@@ -1,6 +1,129 @@
-import PebblesVerif.Spec.SchemaUnion
+import PebblesVerif.Proofs.Merge
+/-!
+# C03 — the merged schema is exactly the union of the service schemas
+
+About `mergeSchema` (Model/Merge.lean): the schema `ExtendMergerFunc.Merge` hands to the
+formatter, for EVERY list of inputs (any number of services, any order). The print + reload
+through gqlparser is outside the model; the correspondence run compares after it.
+`facts` are regenerated from the source on every run; the theorems are proved for the repaired
+tree (`C03_facts`), the negative witnesses are evaluated on the tree as first read (`original`).
+-/
 namespace PebblesVerif.Merge
+open PebblesVerif PebblesVerif.SchemaUnion
 open PebblesVerif.Gen.Merge
-/-- the source has the shape the model was written for, with the repairs applied -/
+
+/-- the source has the shape the model was written for, with repairs 0001–0005 applied -/
 theorem C03_facts : facts = expected := by decide
+
+/-- all definitions named `Node` across the inputs have the same items -/
+def NodeAgree (ins : List MergeInput) : Prop :=
+  ∀ i ∈ ins, ∀ j ∈ ins, ∀ x ∈ i.schema.types, ∀ y ∈ j.schema.types,
+    x.name = nodeInterfaceName → y.name = nodeInterfaceName → Covers x y
+
+instance (d r : TypeDef) : Decidable (Covers d r) := by unfold Covers; infer_instance
+instance (ins : List MergeInput) : Decidable (NodeAgree ins) := by unfold NodeAgree; infer_instance
+instance (S : Schema) : Decidable (RootsAreObjects S) := by unfold RootsAreObjects; infer_instance
+instance (S : Schema) : Decidable (TypesNodup S) := by unfold TypesNodup; infer_instance
+instance (l : List Schema) : Decidable (DirectivesAgree l) := by unfold DirectivesAgree; infer_instance
+instance (l : List Schema) (R : Schema) : Decidable (SchemaUnion.Superset l R) := by unfold SchemaUnion.Superset; infer_instance
+instance {ε α : Type} (x : Except ε α) (P : α → Prop) [∀ a, Decidable (P a)] : Decidable (∃ a, x = .ok a ∧ P a) :=
+  match x with
+  | .ok a => if h : P a then isTrue ⟨a, rfl, h⟩ else isFalse (fun ⟨b, hb, hp⟩ => by cases hb; exact h hp)
+  | .error _ => isFalse (fun ⟨_, hb, _⟩ => by cases hb)
+
+theorem nodeAgree_inInputs {i0 : MergeInput} {rest : List MergeInput} (h : NodeAgree (i0 :: rest))
+    {d x : TypeDef} (hd : InInputs (i0 :: rest) d) (hx : x ∈ i0.schema.types ∨ InInputs rest x)
+    (hdn : d.name = nodeInterfaceName) (hxn : x.name = nodeInterfaceName) : Covers d x := by
+  obtain ⟨i, hi, hdi⟩ := hd
+  rcases hx with hx | ⟨j, hj, hxj⟩
+  · exact h i hi i0 List.mem_cons_self d hdi x hx hdn hxn
+  · exact h i hi j (List.mem_cons_of_mem _ hj) d hdi x hxj hdn hxn
+
+/-- what `mergeSchema` is made of, once it succeeded -/
+theorem mergeSchema_ok {i0 : MergeInput} {rest : List MergeInput} {R : Schema}
+    (h : mergeSchema E (i0 :: rest) = .ok R) :
+    ∃ types, foldInputs E i0.schema.types i0.schema i0.schema rest = .ok types ∧
+      R.types = refillUnions (mergePossibleTypes ((i0 :: rest).map (·.schema)) types) types ∧
+      R.directives = mergeDirectives ((i0 :: rest).map (·.schema)) := by
+  simp only [mergeSchema, bind, Except.bind, pure, Except.pure] at h
+  split at h
+  · cases h
+  · rename_i types ht
+    cases h
+    exact ⟨types, ht, rfl, rfl⟩
+
+/-
+FULL STATEMENT (false of the code, see `C03_superset_false_node`, `C03_superset_false_directive`):
+  theorem C03_superset (h : mergeSchema facts ins = .ok R) (hroot : ∀ i ∈ ins, RootsAreObjects i.schema) :
+      SchemaUnion.Superset (ins.map (·.schema)) R
+-/
+
+/-- C03, superset: every type, field (result type, default), argument (type, default), enum value,
+    union member, implemented interface and directive definition of every input is in the merged
+    schema — provided the services agree on `Node` itself and on same-named directive
+    definitions (the two open findings). `RootsAreObjects` is a fact of every loaded schema. -/
+theorem C03_superset_partial (ins : List MergeInput) (R : Schema) (h : mergeSchema facts ins = .ok R)
+    (hroot : ∀ i ∈ ins, RootsAreObjects i.schema) (hnode : NodeAgree ins)
+    (hdir : DirectivesAgree (ins.map (·.schema))) : SchemaUnion.Superset (ins.map (·.schema)) R := by
+  rw [C03_facts] at h
+  cases ins with
+  | nil => cases h
+  | cons i0 rest =>
+    obtain ⟨types, ht, hR, hD⟩ := mergeSchema_ok h
+    have IF := foldInputs_spec rest _ _ _ _ ht (fun i hi => hroot i (List.mem_cons_of_mem _ hi))
+    constructor
+    · intro S hS d hd hb it hit
+      obtain ⟨i, hi, rfl⟩ := List.mem_map.mp hS
+      have : ∃ r ∈ types, Covers d r := by
+        rcases List.mem_cons.mp hi with rfl | hi
+        · exact IF.keeps d hd
+        · apply IF.adds i hi d hd hb
+          intro hN x hx hxN
+          exact nodeAgree_inInputs hnode ⟨i, List.mem_cons_of_mem _ hi, hd⟩ hx hN hxN
+      obtain ⟨r, hr, hc⟩ := this
+      rw [hR]
+      simp only [typesItems, List.mem_flatMap]
+      exact ⟨_, List.mem_map_of_mem (f := fun d => if d.kind == .union && d.members.isEmpty then
+          { d with members := assocGet (mergePossibleTypes ((i0 :: rest).map (·.schema)) types) d.name } else d) hr,
+        refill_covers _ r it (hc it hit)⟩
+    · intro S hS dd hdd
+      rw [hD]
+      unfold mergeDirectives
+      apply mergeDirectives_keeps
+      · intro S' hS' d' hd' hn
+        exact hdir S' hS' S hS d' hd' dd hdd hn
+      · exact Or.inr ⟨S, hS, hdd⟩
+
+/-- C03, nothing invented: every item of the merged schema is an item of some input (a member of
+    a refilled "broken" union comes from some input's `PossibleTypes` of that union), every
+    directive definition is some input's. Full. -/
+theorem C03_no_invention (ins : List MergeInput) (R : Schema) (h : mergeSchema facts ins = .ok R)
+    (hroot : ∀ i ∈ ins, RootsAreObjects i.schema) : NoInvention (ins.map (·.schema)) R := by
+  rw [C03_facts] at h
+  cases ins with
+  | nil => cases h
+  | cons i0 rest =>
+    obtain ⟨types, ht, hR, hD⟩ := mergeSchema_ok h
+    have IF := foldInputs_spec rest _ _ _ _ ht (fun i hi => hroot i (List.mem_cons_of_mem _ hi))
+    constructor
+    · intro it hit
+      rw [hR] at hit
+      simp only [typesItems, List.mem_flatMap] at hit
+      obtain ⟨r', hr', hit'⟩ := hit
+      obtain ⟨d, hd, rfl⟩ := mem_refillUnions hr'
+      rcases refill_items _ d it hit' with hi | ⟨m, rfl, hm⟩
+      · left
+        rcases IF.noInv d hd it hi with ⟨d0, hd0, hi0⟩ | ⟨d0, ⟨j, hj, hdj⟩, hi0⟩
+        · exact ⟨i0.schema, by simp, by simp only [typesItems, List.mem_flatMap]; exact ⟨d0, hd0, hi0⟩⟩
+        · exact ⟨j.schema, List.mem_map_of_mem (List.mem_cons_of_mem _ hj),
+            by simp only [typesItems, List.mem_flatMap]; exact ⟨d0, hdj, hi0⟩⟩
+      · right
+        exact ⟨d.name, m, rfl, mem_mergePossibleTypes hm⟩
+    · intro dd hdd
+      rw [hD] at hdd
+      unfold mergeDirectives at hdd
+      rcases mergeDirectives_noInv _ _ _ hdd with h' | h'
+      · cases h'
+      · exact h'
+
 end PebblesVerif.Merge
